@@ -37,12 +37,15 @@ def op_alphabet(keys, nmax):
         ops.append(['add', k, {'pos_key': keys[(keys.index(k) + 1) % len(keys)], 'after': True, 'replace': False}])
         ops.append(['del', k])
         ops.append(['append', k])
+        ops.append(['appendv', k, False])
+        ops.append(['setnone', k])
     ops.append(['add', keys[0], {'index': 0, 'pos_key': keys[-1]}])
     ops.append(['add', keys[0], {'pos_key': 'zz'}])
     for i in range(nmax + 1):
         ops.append(['pop_at', i])
     ops.append(['sort'])
     ops.append(['reverse'])
+    ops.append(['extend', [keys[-1], keys[0]], 'dict', True])
     return ops
 
 
@@ -63,6 +66,8 @@ def apply_model(lst, op, step):
     kind = op[0]
     if kind == 'set':
         return apply_model(lst, ['add', op[1], {}], step)
+    if kind == 'setnone':       # a key whose value is None is still a key
+        return apply_model(lst, ['add', op[1], {'value': None}], step)
     if kind == 'add':
         k, kw = op[1], op[2]
         index, pos_key = kw.get('index'), kw.get('pos_key')
@@ -143,6 +148,9 @@ def apply_real(o, op, step):
     try:
         if kind == 'set':
             o[op[1]] = val
+            r = None
+        elif kind == 'setnone':
+            o[op[1]] = None
             r = None
         elif kind == 'add':
             kw = dict(op[2])
@@ -256,7 +264,7 @@ def check_dump_order(case):
         apply_real(g.metadata, op, step)
     z = hszinc.dump(g)
     head = z.split('\n')[0]
-    want = 'ver:"2.0"' + ''.join(' %s' % k if v == 'MARKER' else ' %s:"%s"' % (k, v) for k, v in lst)
+    want = 'ver:"2.0"' + ''.join(' %s' % k if v == 'MARKER' else (' %s:N' % k if v is None else ' %s:"%s"' % (k, v)) for k, v in lst)
     if head != want:
         raise Violation('dump-order', case, 'ZINC header %r, model %r' % (head, want))
     j = json.loads(hszinc.dump(g, mode=hszinc.MODE_JSON))
@@ -289,7 +297,7 @@ def run(part, args, env):
         keys = KEYS4[:args['nkeys']]
         if any(k not in keys for k in init):
             keys = KEYS4
-        alphabet = [op for op in op_alphabet(keys, len(keys)) if args['cls'] == 'mo' or op[0] != 'append']
+        alphabet = [op for op in op_alphabet(keys, len(keys)) if args['cls'] == 'mo' or op[0] not in ('append', 'appendv', 'extend')]
         n = nt = 0
         depth = args['depth']
         for idx, first in enumerate(alphabet):
@@ -330,7 +338,7 @@ def run(part, args, env):
         op = st.one_of(
             key.map(lambda k: ['set', k]),
             st.tuples(key, addkw).filter(lambda t: t[1].get('pos_key') != t[0]).map(lambda t: ['add', t[0], t[1]]),
-            key.map(lambda k: ['del', k]), key.map(lambda k: ['pop', k]), key.map(lambda k: ['popd', k]),
+            key.map(lambda k: ['del', k]), key.map(lambda k: ['pop', k]), key.map(lambda k: ['setnone', k]), key.map(lambda k: ['popd', k]),
             st.integers(-2, 6).map(lambda i: ['pop_at', i]), st.just(['sort']), st.just(['reverse']),
             key.map(lambda k: ['append', k]), st.tuples(key, st.booleans()).map(lambda t: ['appendv', t[0], t[1]]),
             st.tuples(st.lists(key, min_size=1, max_size=3, unique=True), st.sampled_from(['list', 'dict', 'sd'])).map(
